@@ -1559,7 +1559,10 @@ class Interp:
                 n = self.ctx.choose_free(3, "length of vec![x; opaque]")
             n = n if isinstance(n, int) else self.ctx.concretize_int(n, 0, self.loop_bound)
             return Vec([self.clone(x) for _ in range(n)])
-        if name in ("format", "msgtext", "msgcode", "write", "writeln", "concat", "stringify", "serde_json::json",
+        if name in ("write", "writeln"):
+            # formatting into an in-memory buffer / formatter: no machine-state effect, and it does not fail
+            return ok(UNIT)
+        if name in ("format", "msgtext", "msgcode", "concat", "stringify", "serde_json::json",
                     "include_str", "include_bytes", "env", "line", "file"):
             if name in ("format", "msgtext", "msgcode") and args:
                 # opaque text, but functional in the values it is built from
@@ -1729,6 +1732,10 @@ class Interp:
     def call_method(self, recv, name, args, node):
         from . import stdmodels
         r = recv
+        # harness-registered models of third-party methods, keyed "Type::method"
+        tn0 = self.type_name(self.deref(recv))
+        if tn0 and f"{tn0}::{name}" in self.natives and (tn0, name) not in self.p.methods:
+            return self.natives[f"{tn0}::{name}"](self, [self.deref(recv)] + list(args), node)
         # auto-deref chain: Ref -> value; try user methods at each Rc layer
         hops = 0
         while True:
